@@ -93,6 +93,8 @@ class Snapshotter:
         self.last = None
         self.points = 0
         self.states = 0
+        self.images = None  # set to [] to keep a few crash images (file contents at a crash point) for a reopen afterwards
+        self.keep = ()
 
     def __call__(self, code, line):
         self.points += 1
@@ -102,6 +104,8 @@ class Snapshotter:
             return
         self.last = snap
         self.states += 1
+        if self.images is not None and len(self.images) < 4 and (self.states in self.keep or len(self.images) < 1):
+            self.images.append((snap, self.oracle.completed, f"{os.path.basename(code.co_filename)}:{line} during {self.label}"))
         linehook.pause()
         try:
             self.oracle.validate(self.ctx, snap, self.inflight, f"at crash point {os.path.basename(code.co_filename)}:{line} during {self.label}")
@@ -148,6 +152,7 @@ def wl_snapshots(ctx, rng, case):
         orc = FileOracle(est, rate, m, k, hf)
         snap = Snapshotter(ctx, path, orc)
         snap.boundary("after creation")
+        snap.images, snap.keep = [], set(rng.sample(range(1, 40), 6))
         added = []
         # some histories hand every key over in ONE mutable buffer that the caller refills in place between the calls (a read loop)
         buf = bytearray() if hf is None and rng.random() < 0.2 else None
@@ -250,6 +255,21 @@ def wl_snapshots(ctx, rng, case):
             ctx.check(fh.read() == orc.expected_file(), "after the final close the backing file differs from the in-memory export of the same history")
         ctx.count("crash_points", snap.points)
         ctx.count("distinct_file_states_validated", snap.states)
+        # ---- a few of the crash images (what a kill at that line leaves behind) are REOPENED: the filter reports the count the file
+        # records - no more, no less - and keeps it, and the bits, on the next close
+        for image, completed_then, where_ in snap.images:
+            ip = sc.path("image")
+            with open(ip, "wb") as fh:
+                fh.write(image)
+            recorded = refimpl.BLOOM_FOOTER.unpack(image[-20:])[1]
+            g = P.BloomFilterOnDisk(ip, **bl.kw_hash(hf))
+            ctx.check(g.elements_added == recorded, f"a filter reopened from the crash image {where_} reports another element count than the file records",
+                      got=g.elements_added, recorded=recorded, completed_additions=completed_then)
+            g.close()
+            with open(ip, "rb") as fh:
+                after = fh.read()
+            ctx.check(after == image, f"reopening and closing the crash image {where_} changed the file", count_before=recorded, count_after=refimpl.BLOOM_FOOTER.unpack(after[-20:])[1] if len(after) >= 20 else None)
+            ctx.count("crash_images_reopened")
         case.nontrivial = len(added) >= 1
     finally:
         os.chdir(cwd0)
